@@ -12,6 +12,7 @@ pub mod gen;
 pub mod keys;
 pub mod known;
 pub mod libeval;
+pub mod miniregex;
 pub mod refchain;
 pub mod refdl;
 pub mod rng;
